@@ -451,9 +451,10 @@ def ent_serialise(ent: EntityDef, file: IO[bytes], str_dict: BinStrSerialise) ->
     file.write(_fmt_ent_header.pack(
         flags.value,
         len(ent.bases),
-        len(ent.keyvalues),
-        len(ent.inputs),
-        len(ent.outputs),
+        # Empty tag maps are skipped below, don't count them.
+        sum(1 for tag_map in ent.keyvalues.values() if tag_map),
+        sum(1 for tag_map in ent.inputs.values() if tag_map),
+        sum(1 for tag_map in ent.outputs.values() if tag_map),
         len(ent.resources),
     ))
     for base_ent in ent.bases:
